@@ -1,11 +1,7 @@
 package gkvlite
 
-// Replay support for failed obligations (injected with `go test -overlay`; nothing is written into /repo).
-// A test named TestReplay_<function> evaluates the contract of that function AT RUN TIME on the real code,
-// over a fixed corpus of boundary values plus a deterministic pseudo-random corpus (and, when the verifier
-// produced scalar model values, over those too: GOVC_MODEL). It uses its own big-endian helpers and its own
-// record parser, sharing no code with the functions under test. A replay that fails here turns
-// "no-failing-input-found" into a reproduced violation with a concrete input.
+// Support code of the bounded harness of C06: a copy of /verif/govc/replay/replay_test.go (run-time evaluation of the
+// contracts on the real code against independent oracles). See c06_test.go in this directory.
 
 import (
 	"bytes"
